@@ -69,6 +69,9 @@ class R:
         return "vec![" + ", ".join(f"(\"{T.arg_key(a)}\", j(&{a['name']}))" for a in h["args"]) + "]"
 
     def _ret(self, h, m, e, in_trait=False):
+        if h.get("ret_err") == "lookup":
+            # a handler-local error type that converts into the contract's error (and has no From<StdError>)
+            e = "LookupErr"
         if h["kind"] == "query":
             r = self.tty(h["resp_ti"]) if in_trait else self.ty(h["resp_ti"])
             if h.get("resp_explicit") and not h.get("resp_literal"):
